@@ -7,6 +7,7 @@ transcript.  Correspondence: (a) the policy trajectory of a random history of go
 edits and policy assignments in ONE process against the Lean model `trajectory read`; (b) the EDIF
 reference-resolution outcome against the Lean model `resolve` on an independently extracted
 declaration/reference event stream."""
+from common.proc import really_hung
 import gc
 import json
 import os
@@ -200,18 +201,22 @@ def forked(fn, timeout):
             os._exit(code)
     os.close(w)
     chunks = []
-    deadline = time.time() + timeout
+    t0 = time.time()
+    deadline = t0 + timeout
     status = "ok"
     try:
         while True:
             left = deadline - time.time()
             if left <= 0:
-                status = "hang"
-                break
+                # a loaded machine is not a hang: give up only when the child has really used its CPU budget
+                if really_hung(pid, 0.8 * timeout, time.time() - t0, 15 * timeout):
+                    status = "hang"
+                    break
+                deadline = time.time() + timeout / 2.0
+                continue
             rl, _, _ = select.select([r], [], [], left)
             if not rl:
-                status = "hang"
-                break
+                continue
             b = os.read(r, 65536)
             if not b:
                 break
